@@ -634,8 +634,13 @@ def argsort(a, axis=-1, kind=None):
     return ndarray(p, (len(p),), int64)
 
 
-def sort(a, axis=-1):
+def sort(a, axis=-1, order=None):
     a = _a(a)
+    if isinstance(a, RecArray):
+        if order is None:
+            raise ShimUnsupported("sort of a record array without order")
+        key = order if isinstance(order, str) else order[0]
+        return a._select(_sort_perm(a.cols[key]._d))
     if a.ndim == 1:
         p = _sort_perm(a._d)
         return ndarray([a._d[i] for i in p], a.shape, a.dtype)
